@@ -48,7 +48,7 @@ func (c03Suite) Gen(rng *Rng, tier string, w *bufio.Writer, stats *Stats) {
 		name string
 		qs   []string
 	}{{"scope", focusedScopeShapes()}, {"with-rename", focusedWithShapes()}, {"suffix", focusedSuffixShapes()}, {"aggregate", focusedAggregateShapes()}, {"path-predicate", focusedPathPredicateShapes()},
-		{"order-alias", focusedOrderAliasShapes()}, {"path-membership", focusedPathMembershipShapes()}, {"exact-range", focusedExactRangeShapes()}} {
+		{"order-alias", focusedOrderAliasShapes()}, {"path-membership", focusedPathMembershipShapes()}, {"exact-range", focusedExactRangeShapes()}, {"quoted-names", focusedQuotedNameShapes()}} {
 		for _, q := range fam.qs {
 			emit("focused:"+fam.name, "q "+jsonQuote(q))
 			stats.Inc("focused." + fam.name)
@@ -152,6 +152,13 @@ func translateAnswer(stats *Stats, mapper pgsql.KindMapper, model *cypher.Regula
 	if ferr != nil {
 		stats.Inc("format_err")
 		sql = "<format error: " + ferr.Error() + ">"
+	}
+	if ferr == nil {
+		if d := identifierTie(res.Statement, sql); d != "" {
+			// the text does not name the identifiers the statement holds (harness/identtie.go)
+			stats.Inc("identifier_tie_differs")
+			return "ident-differs " + d + " sql=" + jsonQuote(sql)
+		}
 	}
 	return fmt.Sprintf("ok upd=%d params=%s sql=%s stmt=%s", upd, paramKeysSexp(res.Parameters), jsonQuote(sql), ToSexp(res.Statement))
 }
